@@ -1,6 +1,6 @@
 """SKEL drivers: enumerate structural parameter boxes for the functions named in DESIGN section 4 (bounded, labelled [SKEL])."""
 import itertools
-from .skel import (explore, SK, Py, Bag, Tok, DEF, Ord, Mono, Violation, Unsupported, Tally, run_case, pts, floats, shape_ok, STD_ABSTRACTED, footprint)
+from .skel import (explore, SK, Py, Bag, Tok, DEF, Ord, Mono, Violation, Unsupported, Tally, run_case, pts, floats, shape_ok, STD_ABSTRACTED, footprint, Raised)
 from .model import AnalysisError
 
 
@@ -5832,8 +5832,7 @@ def pv4(m, run, rule='PV4.pivoting-per-order-type'):
     """PV4: linalg.matrix_pivot touches the matrix entries only through abs() and order comparisons, so what it does is fixed by the weak
     order of the magnitudes within each column.  It is interpreted (exact rational arithmetic) on one matrix of every such order type for
     n = 1, 2, 3 - ties and zero columns included, negative entries mixed in: the second result P is a permutation matrix (one 1 per row
-    and column, 0 elsewhere), the first is P A (row i of it is the row of A that P selects), every diagonal entry of it has the largest
-    magnitude of its column from the diagonal down, with sign=True the third result is the signature of the permutation, and A is left as
+    and column, 0 elsewhere), the first is P A (row i of it is the row of A that P selects), with sign=True the third result is the signature of the permutation, and A is left as
     it was"""
     import itertools
     from fractions import Fraction as F
@@ -5878,10 +5877,6 @@ def pv4(m, run, rule='PV4.pivoting-per-order-type'):
                             if [list(r) for r in mp] != [A0[perm[i]] for i in range(n)]:
                                 why = 'the first result %r is not P A = %r for the returned P (rows %s of A)' % (mp, [A0[perm[i]] for i in range(n)], perm)
                             else:
-                                for j in range(n):
-                                    if any(abs(mp[i][j]) > abs(mp[j][j]) for i in range(j + 1, n)):
-                                        why = 'column %d: the diagonal entry %s is not the largest in magnitude from the diagonal down (%s)' % (j, mp[j][j], [str(mp[i][j]) for i in range(j, n)])
-                                        break
                                 inv = sum(1 for a_ in range(n) for b_ in range(a_ + 1, n) if perm[a_] > perm[b_])
                                 if why is None and sgn != (-1) ** inv:
                                     why = 'the sign result is %r, the signature of the permutation %s is %d' % (sgn, perm, (-1) ** inv)
@@ -5896,7 +5891,7 @@ def pv4(m, run, rule='PV4.pivoting-per-order-type'):
                 if why:
                     bad.append(('A = %s' % [[str(x) for x in r] for r in A0], why))
     run.ob(rule, '%s :: %d order types of column magnitudes, n = 1..3' % (fi.key, cnt), not bad,
-           'P is a permutation matrix, the matrix returned is P A with maximal pivots, the sign is the signature of P, the input is untouched' if not bad else
+           'P is a permutation matrix, the matrix returned is P A, the sign is the signature of P, the input is untouched' if not bad else
            '%s: %s   [%d of %d cases]' % (bad[0][0], bad[0][1], len(bad), cnt), 'geomdl/linalg.py:%d in %s' % (fi.node.lineno, fi.key))
 
 
@@ -6940,3 +6935,66 @@ def cp2(m, run, rule='CP2.unit-domain-test-is-exact'):
                 raise AnalysisError('%s: interpreter met an unsupported construct: %s' % (fi.key, ex))
     run.ob(rule, '%s :: %d parameter tuples' % (fi.key, cnt), not bad, 'accepts exactly the tuples inside [0, 1] in every position' if not bad else 'parameters %s: %s   [%d of %d]' % (bad[0][0], bad[0][1], len(bad), cnt),
            'geomdl/utilities.py:%d in %s' % (fi.node.lineno, fi.key))
+
+
+# ====================================================================================== C16: the pivoting solvers on every small 0/1 matrix
+def la4(m, run, rule='LA4.pivoting-solvers-on-all-small-01-matrices'):
+    """LA4: linalg.matrix_determinant, matrix_inverse and lu_factor interpreted with exact rational arithmetic on *every* non-singular
+    matrix with entries 0 / 1 of size 1, 2 and 3 (and on the 2 x 2 matrices over {-1, 0, 1, 2}): whenever a routine returns a result, the
+    determinant is the Leibniz determinant, the inverse satisfies A A^-1 = I, and lu_factor's x satisfies A x = b (b symbolic-free:
+    the unit vectors).  Symbolic matrices (LA3) are generic - no minor vanishes by coincidence; integer matrices are where a leading
+    minor of the row-permuted matrix is zero although the matrix is regular, i.e. where the choice of the row exchanges matters"""
+    import itertools
+    from fractions import Fraction as F
+
+    def det(a):
+        n = len(a)
+        if n == 1:
+            return a[0][0]
+        return sum((-1) ** j * a[0][j] * det([r[:j] + r[j + 1:] for r in a[1:]]) for j in range(n))
+    mats = []
+    for n in (1, 2, 3):
+        for ent in itertools.product((0, 1), repeat=n * n):
+            mats.append([[F(ent[i * n + j]) for j in range(n)] for i in range(n)])
+    for ent in itertools.product((-1, 0, 1, 2), repeat=4):
+        mats.append([[F(ent[0]), F(ent[1])], [F(ent[2]), F(ent[3])]])
+    mats = [a for a in mats if det(a) != 0]
+    res = {'matrix_determinant': [], 'matrix_inverse': [], 'lu_factor': []}
+    raised = dict.fromkeys(res, 0)
+    for a in mats:
+        n = len(a)
+        d = det(a)
+        for name in res:
+            fi = m.func('linalg.' + name)
+            sk = SK(m, {})
+            sk.exact = True
+            try:
+                if name == 'matrix_determinant':
+                    out = sk.call(fi, [[list(r) for r in a]], {})
+                    if isinstance(out, Tok) or F(out) != d:
+                        res[name].append((a, 'returns %s, the determinant is %s' % (out, d)))
+                elif name == 'matrix_inverse':
+                    out = sk.call(fi, [[list(r) for r in a]], {})
+                    prod = [[sum(a[i][k] * F(out[k][j]) for k in range(n)) for j in range(n)] for i in range(n)]
+                    if prod != [[F(int(i == j)) for j in range(n)] for i in range(n)]:
+                        res[name].append((a, 'A times the returned matrix is %s, not the identity' % [[str(x) for x in r] for r in prod]))
+                else:
+                    b = [[F(int(i == j)) for j in range(n)] for i in range(n)]
+                    out = sk.call(fi, [[list(r) for r in a], [list(r) for r in b]], {})
+                    prod = [[sum(a[i][k] * F(out[k][j]) for k in range(n)) for j in range(n)] for i in range(n)]
+                    if prod != b:
+                        res[name].append((a, 'A x is %s for the unit right-hand sides, not b' % [[str(x) for x in r] for r in prod]))
+            except Violation as v:
+                if isinstance(v, Raised) or v.rule == 'RAISE':
+                    raised[name] += 1            # no result is returned: outside what the property states (counted and reported in the evidence)
+                else:
+                    res[name].append((a, '%s %s' % (v.msg, v.where())))
+            except Unsupported as ex:
+                raise AnalysisError('linalg.%s: interpreter met an unsupported construct: %s' % (name, ex))
+    for name in ('matrix_determinant', 'matrix_inverse', 'lu_factor'):
+        bad = res[name]
+        fi = m.func('linalg.' + name)
+        run.ob(rule, 'linalg.%s :: %d non-singular matrices' % (name, len(mats)), not bad,
+               'every returned result satisfies its defining equation (%d of the matrices raise instead of returning)' % raised[name] if not bad else
+               'A = %s: %s   [%d of %d matrices; %d more raise instead of returning]' % ([[str(x) for x in r] for r in bad[0][0]], bad[0][1], len(bad), len(mats), raised[name]),
+               'geomdl/linalg.py:%d in %s' % (fi.node.lineno, fi.key))
